@@ -10,6 +10,8 @@ Oracle : (a) history invariants of the edited run: started/executed/failed ids r
          (b) an edit changing a started line (text or indentation) or the source of a macro that has started executing raises
              MethodEditError, leaves method text + method state untouched and the
              run equals (same ticks, same events) a twin run without that edit;
+         (a') a command of a method line that is executing when an edit is accepted goes on (no second start, no second init,
+             no iteration 0 again, one finalize) - judged also while the known merge finding is excluded;
          (c) differential: a fresh load of the final method (same inputs, each run until it is quiescent) shows the
              same per-thread effect order, the same executed lines, and finalizes every command the fresh run finalizes.
 """
@@ -29,7 +31,8 @@ TECHNIQUE = ("Hypothesis-generated methods x live-edit scripts resolved from the
 RULE = ("Hypothesis draws a method (<=7 top-level nodes, depth<=3: Mark/Quick/Slow/Wait/Block/Watch/Alarm/Macro/Call macro, "
         "thresholds), constant or changing inputs, and 1-4 edits at ticks spread over the estimated run (kinds append_end, "
         "append_scope, change, insert, delete, ws, change_started, reindent_started, append_macro; 1/6 of the cases belong to a "
-        "macro family (macro called at the start, edits aimed at macros); target = idx modulo the lines eligible under the method "
+        "macro family (macro called at the start, edits aimed at macros), 1/6 to a running-command family (one Slow line of 4-9 "
+        "iterations, the only line of that name, first edit while it executes); target = idx modulo the lines eligible under the method "
         "state reported at that tick); 25 % inject a snippet with a long-running command 1-6 ticks before an edit; 20 % put a user Pause/Hold window around an edit. "
         "Non-trivial = at least one edit was ACCEPTED after a line of the method had started and before the method end event. "
         "Distinct = distinct (method, inputs, script).")
@@ -59,6 +62,7 @@ SIG_MERGE_DISCARDS = "lost-state:all:merge-installs-stateless-program"
 
 KINDS_W = ["append_end"] * 3 + ["append_scope"] * 3 + ["change"] * 3 + ["insert"] * 3 + ["delete"] * 2 + ["ws"] + ["change_started"] * 3 + \
     ["reindent_started"] * 3 + ["append_macro"]
+KINDS_RUNNING = ["append_end"] * 4 + ["append_scope"] * 2 + ["insert"] * 2 + ["change", "delete", "ws", "change_started"]
 KINDS_MACRO = ["append_macro"] * 5 + ["insert", "delete", "change", "change_started", "reindent_started"]
 INJ_CMDS = ("OvA", "Set3")      # injected commands: names the method never uses (same-name commands cancel each other)
 EDIT_CMDS = ("Slow", "Quick")
@@ -87,15 +91,38 @@ def cases(draw, tier_cfg):
         if draw(st.booleans()):
             tree["body"].append({"k": "callmacro", "name": "MX", "t": None})
         kinds_w = KINDS_MACRO
+    cmd_window = None
+    if kinds_w is KINDS_W and draw(st.integers(0, 4)) == 0:
+        # running-command family: ONE long Slow line (the only line with that command name) and an accept-likely edit while it
+        # executes - a command that is executing when an edit is accepted goes on, it is not started again
+        def no_slow(nodes):
+            for nd in nodes:
+                if nd["k"] == "slow":
+                    nd["k"] = "quick"
+                    nd.pop("n", None)
+                no_slow(nd.get("c", []))
+        no_slow(tree["body"])
+        pos = draw(st.integers(0, len(tree["body"])))
+        nlong = draw(st.integers(4, 9))
+        tree["body"].insert(pos, {"k": "slow", "n": nlong, "t": None})
+        t_cmd = min(E.est_ticks({"body": tree["body"][:pos]}) + 1, 270)
+        cmd_window = (t_cmd, nlong)
+        kinds_w = KINDS_RUNNING
     est = min(E.est_ticks(tree), 280)      # ops stay within tick 1..300 (valid_ops)
     init = {t: float(draw(st.sampled_from([0, 1, 2, 3, 5, 8]))) for t in ("In1", "In2", "Temp")}
     traj = [[0, init]]
     if draw(st.integers(0, 3)) == 0:
         traj += [p for p in draw(G.trajectory(est + 10)) if p[0] > 0]
     ops = []
-    for _ in range(draw(st.integers(1, tier_cfg.get("max_edits", 4)))):
-        ops.append({"op": "edit", "tick": draw(st.integers(1, est + 6)), "kind": draw(st.sampled_from(kinds_w)),
-                    "idx": draw(st.integers(0, 40)), "payload": draw(st.lists(E.LEAF, min_size=1, max_size=3))})
+    for n_edit in range(draw(st.integers(1, tier_cfg.get("max_edits", 4)))):
+        tick = draw(st.integers(1, est + 6))
+        payload = draw(st.lists(E.LEAF, min_size=1, max_size=3))
+        if cmd_window is not None:
+            payload = [q if q["k"] != "slow" else {"k": "mark"} for q in payload]      # the Slow line stays the only one
+            if n_edit == 0:
+                tick = max(1, cmd_window[0] + draw(st.integers(-1, cmd_window[1] + 2)))
+        ops.append({"op": "edit", "tick": tick, "kind": draw(st.sampled_from(kinds_w)),
+                    "idx": draw(st.integers(0, 40)), "payload": payload})
     if draw(st.integers(0, 3)) == 0:
         tgt = ops[draw(st.integers(0, len(ops) - 1))]
         # the injected long command starts 3 ticks after the injection and runs 2-4 ticks: 1-6 ticks ahead of the edit puts
@@ -134,6 +161,64 @@ def _valid(case) -> bool:
 
 def _kind_of_key(key: str) -> str:
     return "mark" if key.startswith("mark:") else key.split(":")[1].lower()
+
+
+def _running_command_clause(A, viol, cl, merge_known_broken):
+    """A UOD command of a method line that is EXECUTING when an edit is accepted (merge) goes on: until the next accepted edit
+    no second instance of that line's command starts, the running instance is not initialised again and never executes
+    iteration 0 again, and it is not finalized twice (that it finishes at all is judged only when the merge kept its state: after
+    the known merge finding the method does not always get back to the line).  Judged independently of the known merge finding (which re-runs
+    COMPLETED lines): the running line is re-visited once and the unchanged engine lets the running instance go on.  Only for
+    lines outside Alarm/Macro bodies whose command name no other line of the method (before and after the edit) uses -
+    another line of that name would legitimately take over / cancel the instance."""
+    acc = [r for r in A["edits"] if r["accepted"]]
+    inst: dict = {}
+    for e in A["events"]:
+        if e[1] != "cmd":
+            continue
+        d = inst.setdefault(e[3], {"name": e[2], "key": None, "first": None, "fin": [], "exec": [], "init": []})
+        if e[4] == "exec":
+            if d["key"] is None:
+                d["key"], d["first"] = "cmd:%s:%s" % (e[2], str(e[5]).strip()), e[0]
+            d["exec"].append((e[0], e[6]))
+        elif e[4] == "finalize":
+            d["fin"].append(e[0])
+        elif e[4] == "init":
+            d["init"].append(e[0])
+    for n, r in enumerate(acc):
+        if r["ret"] != "merge_method":
+            continue
+        te = r["tick"]
+        nxt = acc[n + 1]["tick"] if n + 1 < len(acc) else 10 ** 9
+        So = E.Struct(r["old_lines"])
+        for iid in sorted(inst, key=lambda i: (inst[i]["first"] or 0, str(i))):
+            d = inst[iid]
+            if d["key"] is None or not (d["first"] < te) or [f for f in d["fin"] if f < te]:
+                continue                                     # not executing at the edit
+            li = [j for j, (_, t) in enumerate(r["old_lines"]) if E.line_key(t) == d["key"]]
+            if len(li) != 1 or So.info(li[0])["repeating"]:
+                continue                                     # injected command, or a line in an Alarm / Macro body
+            same_name = lambda lines: len([1 for _, t in lines if E.split_line(t)[1] == d["name"]])   # noqa: E731
+            if same_name(r["old_lines"]) != 1 or same_name(r["new_lines"]) != 1:
+                cl.append("running-command-at-edit:not-judged:name-used-by-other-lines")
+                continue
+            cl.append("running-command-at-edit:judged")
+            lid = r["old_lines"][li[0]][0]
+            others = [(i2, d2["first"]) for i2, d2 in inst.items() if i2 != iid and d2["key"] == d["key"] and te <= d2["first"] < nxt]
+            ctx = "line %s (%s) was executing (iterations so far %s) when the edit (%s) at tick %d was accepted" \
+                % (lid, d["key"], [x[1] for x in d["exec"] if x[0] < te], r["info"]["kind"], te)
+            if others:
+                viol("running-command-restarted:new-instance", "%s; a second instance of the command started at tick %d; first "
+                     "instance: exec %s finalize %s" % (ctx, others[0][1], d["exec"], d["fin"]))
+            if [x for x in d["exec"] if te <= x[0] < nxt and x[1] == 0] or [x for x in d["init"] if te <= x < nxt]:
+                viol("running-command-restarted:same-instance", "%s; the instance was initialised / ran iteration 0 again: init %s exec %s"
+                     % (ctx, d["init"], d["exec"]))
+            if len(d["fin"]) > 1:
+                viol("running-command-finalized-twice", "%s; finalize at ticks %s" % (ctx, d["fin"]))
+            # after a merge that shows the known finding the method may not get back to the line at all (then nothing ticks the
+            # instance any more): whether the command FINISHES is judged only on a tree whose merges keep their state
+            if not merge_known_broken and not d["fin"] and nxt == 10 ** 9 and A["quiet"] and A["final_state"] == "Running" and not others:
+                viol("running-command-never-finalized", "%s; it never finished in %d ticks (exec %s)" % (ctx, A["n_ticks"], d["exec"]))
 
 
 def run_case(case):
@@ -246,6 +331,10 @@ def run_case(case):
     cl.append("accepted-edits:%d" % n_acc)
     if A["injects"]:
         cl.append("with-injection")
+    if any(i["refused"] for i in A["injects"]):
+        cl.append("injection-refused(not C01's subject)")
+
+    _running_command_clause(A, viol, cl, merge_broken_at is not None and EXCLUDE_KNOWN_MERGE_DISCARDS_STATE)
 
     if merge_broken_at is not None and EXCLUDE_KNOWN_MERGE_DISCARDS_STATE:
         info["excluded"] += 1
